@@ -247,7 +247,42 @@ META["C19"] = {"files": ["value.c", "map.c", "packet.c", "utils.c"], "functions"
                "outside": ["sequences longer than one step from the enumerated shapes (covered by induction over operations, argued)",
                            "uthash hashing/bucket growth", "clone of number values and of table-in-list nesting deeper than listed (no verdict within the cap)"]}
 
-REG = {"C20": c20, "C10": c10, "C18": c18, "C09": c09, "C08": c08, "C14": c14, "C19": c19}
+
+# ------------------------------------------------------------------------------------------ C07
+SHAPE_NAMES = ["char", "unknown", "n/a", "number", "list[char,n/a]", "table{a:char}", "list[list[char]]", "table{a:list[char]}"]
+
+
+def c07(tier):
+    qs = []
+    SERCAP = int(os.environ.get("SERCAP", "512"))
+    # round trip through the byte image: only the shapes whose image CBMC can follow (kinds without text); for the others
+    # the kind/length read back from the byte buffer is symbolic to CBMC and the deserialiser's recursion explodes (measured:
+    # no verdict in 240 s even for a single char value with concrete text) -> not claimed
+    for shape in (1, 2):
+        for mode in ("func", "safety"):
+            qs.append(Q("C07_ser_S%d_%s" % (shape, mode), "h07_ser.c", defs={"SHAPE": shape, "CIF_API_VERIF_SERIALIZATION_CAP": SERCAP}, extra=ICU_NORM_CHEAP,
+                        libtus=["value.c", "map.c", "packet.c", "utils.c"], unwind=8,
+                        unwindset=[e.replace(":2", ":4") for e in VAL_REC] + ["memcmp.*:8", "cif_buf_write.*:12"], mode=mode, replay_libs=ICU_LIBS,
+                        native_extra=["stubs/icu_norm_cheap.c"], object_bits=10, group="h07_ser",
+                        bounds={"shape": SHAPE_NAMES[shape], "DEFAULT_SERIALIZATION_CAP": SERCAP},
+                        note="serialize -> deserialize round trip"))
+    caps = [(1, 0), (2, 1), (8, 0), (8, 8)] if tier == "quick" else [(1, 0), (1, 1), (2, 0), (2, 1), (3, 3), (8, 0), (8, 5), (8, 8), (16, 9)]
+    for (cap, pos) in caps:
+        for ln in sorted({0, 1, max(cap - pos, 0), max(cap - pos, 0) + 1, (cap * 3) // 2 - pos if (cap * 3) // 2 > pos else 2, (cap * 3) // 2 - pos + 1 if (cap * 3) // 2 >= pos else 3, 3 * cap + 1}):
+            qs.append(Q("C07_buf_c%d_p%d_l%d" % (cap, pos, ln), "h07_buf.c", defs={"BCAP": cap, "BPOS": pos, "BLEN": ln}, extra=ICU + ["stubs/mem_bytes.c"],
+                        unwind=2 * (pos + 3 * ln) + 12, mode="safety", replay_libs=ICU_LIBS, native_extra=NATIVE_ICU, group="h07_buf",
+                        bounds={"capacity": cap, "already written": pos, "write length": ln, "bytes": "symbolic"},
+                        note="cif_buf_write growth: termination (unwinding assertion + native replay), capacity bookkeeping, content preservation"))
+    return qs
+
+
+META["C07"] = {"files": ["value.c", "map.c", "internal/utils.h"], "functions": ["cif_value_serialize", "cif_value_deserialize", "cif_list_serialize",
+               "cif_table_serialize", "cif_list_deserialize", "cif_table_deserialize", "cif_buf_write", "cif_buf_read", "cif_buf_create"],
+               "stubs": ["stubs/icu_str.c", "stubs/icu_norm_cheap.c", "stubs/uthash_model"],
+               "assumptions": ["malloc does not fail", "value-tree shape concrete per instance (enumerated), contents symbolic"],
+               "outside": ["SQLite's own storage of the columns (UTF-16/UTF-8, numeric affinity)", "strings longer than the bound", "nesting deeper than the listed shapes"]}
+
+REG = {"C20": c20, "C10": c10, "C18": c18, "C09": c09, "C08": c08, "C14": c14, "C19": c19, "C07": c07}
 
 
 def for_property(pid, tier):
@@ -308,3 +343,12 @@ MANI["C19"] = {
     "note": "shapes, operation kinds, indices and shape-changing key spellings are concrete per query instance and enumerated "
             "(a symbolic list index or key makes the heap shape symbolic and no back end finishes); element texts / values / lookup "
             "keys are symbolic; uthash replaced by an API-compatible list model; ICU normalisation = identity + ASCII fold model"}
+
+MANI["C07"] = {
+    "text": "Bounded model checking of the C half of value storage: the growable serialisation buffer (cif_buf_write: termination, capacity "
+            "bookkeeping, content preservation across growth, over enumerated capacity/position/length boundaries with symbolic bytes), the "
+            "serialise -> deserialise round trip for the value kinds whose byte image CBMC can follow, and (where listed in evidence) the "
+            "value <-> column macros against the SQL column lists through the SQLite environment stub.",
+    "note": "NOT decided: the byte-level round trip of char/number/list/table values (kind and lengths read back from the byte image are "
+            "symbolic to CBMC and the recursive deserialiser gives no verdict in 240 s even for one char value) and everything SQLite does "
+            "with the columns; cif_value_clone deep copies are under C19"}
